@@ -73,6 +73,8 @@ type Ctx struct {
 	lateAxioms []string
 	lateBox  []string
 	heapBound map[string]string
+	oldSame  map[string]string // havocked heap -> entry heap it agrees with on pre-existing objects
+	constSort map[string]string
 	preludeLen int
 	declared map[string]bool
 	cmds     []string
@@ -94,7 +96,7 @@ type Ctx struct {
 }
 
 func newCtx(prog *Program, mode Mode, pkg *types.Package, fname string) *Ctx {
-	c := &Ctx{prog: prog, mode: mode, pkg: pkg, declared: map[string]bool{}, tags: map[string]int{}, strLits: map[string]string{}, specDone: map[string]*specInst{}, fname: fname, assumed: map[string]bool{}, lemmasUsed: map[string]bool{}, globals: map[string]bool{}, heapSorts: map[string]string{}, defs: map[string]string{}, heapDefs: map[string]heapDef{}, arrDefs: map[string]arrDef{}, heapBound: map[string]string{}}
+	c := &Ctx{prog: prog, mode: mode, pkg: pkg, declared: map[string]bool{}, tags: map[string]int{}, strLits: map[string]string{}, specDone: map[string]*specInst{}, fname: fname, assumed: map[string]bool{}, lemmasUsed: map[string]bool{}, globals: map[string]bool{}, heapSorts: map[string]string{}, defs: map[string]string{}, heapDefs: map[string]heapDef{}, arrDefs: map[string]arrDef{}, heapBound: map[string]string{}, oldSame: map[string]string{}, constSort: map[string]string{}}
 	c.prelude()
 	return c
 }
@@ -118,6 +120,7 @@ func (c *Ctx) declOnce(key, s string) {
 func (c *Ctx) declConst(prefix, sortS string) string {
 	n := c.fresh(prefix)
 	c.cmds = append(c.cmds, fmt.Sprintf("(declare-fun %s () %s)", n, sortS))
+	c.constSort[n] = sortS
 	return n
 }
 
